@@ -128,7 +128,7 @@ CHECKS = {
     ),
     "C08": dict(
         level="exploration",
-        required_probes=['ossps_update_checked', 'resumed_iterate_bitwise_equal', 'restart_from_saved_iterate', 'resume_same_object_checked'],
+        required_probes=['ossps_update_checked', 'resumed_iterate_bitwise_equal', 'restart_from_saved_iterate', 'resume_same_object_checked', 'quadratic_prior_checked_against_definition'],
         parts=[dict(harness="chk_C08", variant="seq", src="checks/chk_C08.cpp",
                     runs=dict(quick=4000, thorough=80000), wall_cap=dict(quick=150, thorough=2400))],
         rule=("as C07 with OSSPS: generated problem, relaxation (alpha, gamma), upper bound, quadratic prior on/off with penalisation "
@@ -137,7 +137,7 @@ CHECKS = {
               "precomputed-denominator file; resume_fresh / resume_reuse / resume_same (same reconstruction object) / resume_default at a drawn saved k; transparent "
               "short/EINTR I/O.  Non-trivial: every run; distinct = event-log hash."),
         components=dict(real=REAL_COMMON + ["OSSPSReconstruction, IterativeReconstruction loop and saving, objective function incl. approximate "
-                                            "Hessian, QuadraticPrior (gradient and surrogate curvature taken from the library), projectors, Interfile output"],
+                                            "Hessian, QuadraticPrior (gradient and surrogate curvature compared with the definition on the voxel grid), projectors, Interfile output"],
                         stub=STUB_IO + ["explicit system matrix (reference)"]),
         assumptions=["restart protocol as C07", "restart equivalence only for no prior / quadratic prior, as the property says",
                      "the prior's own gradient and curvature are taken from the library (C09 is not claimed)"],
@@ -223,7 +223,8 @@ CHECKS = {
         assumptions=["reference rows = the library's own ray-tracing matrix without cache, same symmetry switches (C03 covers symmetries)",
                      "data are generated so that y_b = 0 wherever the model mean is 0 (the property's domain ybar_b > 0) and no quotient is clipped",
                      "TOF data: sensitivity reference uses the non-TOF rows, as the library documents for use_tofsens = false; normalisation data are non-TOF",
-                     "the prior's own value and gradient are taken from the library (C09 is not claimed)",
+                     "C07/C05: the prior's own value and gradient are taken from the library (C09 is not claimed); C08: the quadratic prior's gradient and "
+                     "surrogate curvature are computed from the definition (default 1/distance weights, kappa image), QuadraticPrior.cxx being an anchor of C08",
                      "inputs and configurations are sampled; the order-of-first-use and thread clauses are what the simulation decides"],
     ),
     "C14": dict(
